@@ -331,9 +331,11 @@ pub fn new_var(solver: &mut Solver, decl: &VarDecl, name: Option<String>, earlie
             (id, None)
         }
         VarKind::Sparse => {
-            let id = match name {
-                Some(n) => solver.new_named_sparse_integer(decl.values.clone(), n),
-                None => solver.new_sparse_integer(decl.values.clone()),
+            let id = match (&decl.raw, name) {
+                (Some((list, true)), n) => solver.new_named_sparse_integer(list.clone(), n.unwrap_or_else(|| "raw".to_string())),
+                (Some((list, false)), _) => solver.new_sparse_integer(list.clone()),
+                (None, Some(n)) => solver.new_named_sparse_integer(decl.values.clone(), n),
+                (None, None) => solver.new_sparse_integer(decl.values.clone()),
             };
             (id, None)
         }
